@@ -39,10 +39,19 @@ fn run(input: RunInput) -> ScenFuture {
         let mut cfg = base_config(idle_ms, Some(ka_ms));
         cfg.connect_timeout_ms = Some(w.param("connect_timeout_ms", 1500, 5000) as u64);
 
-        let a = w.start_node(w.spec(1, cfg.clone()), Svc::echo(&w)).unwrap();
+        // a connection limit on either side must not keep a mutual dial from converging: the pair
+        // counts once, and an inbound connection that merely duplicates an existing one adds nothing
+        let lim_a = w.flag("limit_on_a", 0.25).then(|| w.param("limit_a", 1, 2) as usize);
+        let lim_b = w.flag("limit_on_b", 0.25).then(|| w.param("limit_b", 1, 2) as usize);
+        let limited = lim_a.is_some() || lim_b.is_some();
+        let mut cfg_a = cfg.clone();
+        cfg_a.max_concurrent_connections = lim_a;
+        let mut cfg_b = cfg.clone();
+        cfg_b.max_concurrent_connections = lim_b;
+        let a = w.start_node(w.spec(1, cfg_a), Svc::echo(&w)).unwrap();
         let svc_b = Svc::echo(&w);
         let hb = svc_b.handle();
-        let b = w.start_node(w.spec(2, cfg.clone()), svc_b).unwrap();
+        let b = w.start_node(w.spec(2, cfg_b), svc_b).unwrap();
         let mut sa = Subscription::new(&a.net).unwrap();
         let mut sb = Subscription::new(&b.net).unwrap();
         // events of both sides enter the order signature in the order they are published
@@ -83,7 +92,12 @@ fn run(input: RunInput) -> ScenFuture {
         if let Ok(p) = &rb {
             w.check(*p == a.peer_id, "dial-returned-wrong-id", "b>a", || "b's dial returned another identity".into());
         }
-        if !lossy {
+        // (with a limit the later of two staggered dials is legitimately refused: the pair is
+        // already connected and the listener is full)
+        if !lossy && limited {
+            w.check(ra.is_ok() || rb.is_ok(), "dial-failed-without-loss", "mutual-limited", || "both dials of a mutual dial were refused".into());
+        }
+        if !lossy && !limited {
             w.check(ra.is_ok() && rb.is_ok(), "dial-failed-without-loss", "mutual", || {
                 format!("a dial failed although no datagram was lost: a>b={:?} b>a={:?}", ra.as_ref().err().map(|e| e.to_string()), rb.as_ref().err().map(|e| e.to_string()))
             });
